@@ -1,6 +1,7 @@
 package bcheck
 
 import (
+	"io"
 	"reflect"
 	"bytes"
 	"fmt"
@@ -25,7 +26,7 @@ import (
 func init() {
 	Registry["C06"] = &Check{
 		Scenarios: c06Scenarios,
-		Rule: "a retained message followed by a second message (the same wire image, or one with member-less groups) that is then edited in every ordinary way (a member added to each of its groups at every depth, a top-level AVP added, header changed): the retained one must not change; retained AVPs of an application-defined data type whose name is registered without a decoder (kept, if at all, as a copy); histories: a retained first message M1 (one per slice-backed representation: Address IPv4 / IPv6 / other family, undefined AVP, IPv4, IPv6, OctetString, UTF8String, a grouped AVP containing each, nested groups; and one AVP of every declared type carrying payloads of 15 unexpected lengths / shapes, i.e. the lenient decode paths) followed by every sequence of <=3 further reads drawn from {same size with other content, larger but pooled, larger than the 1 KiB pooled buffer} x {same reader, another reader}; the pool shim reuses buffers deterministically (LIFO), so nothing depends on sync.Pool's luck; the same with the exported tuning variable diam.MessageBufferLength raised to 4096 and retained payloads of 1000..3000 bytes. schedules: two connections served by the real reader loops, a handler that retains the first message of connection A, a concurrent writer; Pool.Get is an explored choice (any pooled buffer, or a fresh one); every schedule up to preemption bound 2 (thorough: 4 on all fifteen retained shapes). Oracle: Serialize() bytes and String() of M1 taken when the reader returned it equal those taken at quiescence. Plus: M1 is unmarshalled into a struct and two later messages of the same shape are unmarshalled into the SAME struct value (field shapes *diam.AVP, diam.AVP, []*diam.AVP, the datatype, a pointer to it; 8 data types).",
+		Rule: "a retained message followed by a second message (the same wire image, or one with member-less groups) that is then edited in every ordinary way (a member added to each of its groups at every depth, a top-level AVP added, header changed): the retained one must not change; retained AVPs of an application-defined data type whose name is registered without a decoder (kept, if at all, as a copy); a message read while a 1.1 / 4 / 70 KB message is in flight on another connection (suspended at its header/body border, 8 and 600 bytes into the body), then retained across later reads; histories: a retained first message M1 (one per slice-backed representation: Address IPv4 / IPv6 / other family, undefined AVP, IPv4, IPv6, OctetString, UTF8String, a grouped AVP containing each, nested groups; and one AVP of every declared type carrying payloads of 15 unexpected lengths / shapes, i.e. the lenient decode paths) followed by every sequence of <=3 further reads drawn from {same size with other content, larger but pooled, larger than the 1 KiB pooled buffer} x {same reader, another reader}; the pool shim reuses buffers deterministically (LIFO), so nothing depends on sync.Pool's luck; the same with the exported tuning variable diam.MessageBufferLength raised to 4096 and retained payloads of 1000..3000 bytes. schedules: two connections served by the real reader loops, a handler that retains the first message of connection A, a concurrent writer; Pool.Get is an explored choice (any pooled buffer, or a fresh one); every schedule up to preemption bound 2 (thorough: 4 on all fifteen retained shapes). Oracle: Serialize() bytes and String() of M1 taken when the reader returned it equal those taken at quiescence. Plus: M1 is unmarshalled into a struct and two later messages of the same shape are unmarshalled into the SAME struct value (field shapes *diam.AVP, diam.AVP, []*diam.AVP, the datatype, a pointer to it; 8 data types).",
 		Assume: []string{"data-race freedom between visible operations (audited separately with -race)", "sync.Pool is modelled as: Get returns any previously Put object or allocates"},
 		QuickBudget: 100, ThoroughBudget: 1500,
 	}
@@ -319,6 +320,7 @@ func c06Scenarios(tier string) []*Scenario {
 	out := []*Scenario{{Name: "histories", Seq: func(r *SeqResult) { c06Histories(r, tier == "thorough") }},
 		{Name: "histories/unmarshal-into-a-reused-struct", Seq: c06Unmarshal},
 		{Name: "histories/a-later-message-is-edited", Seq: c06EditLater},
+		{Name: "histories/retained-while-a-large-message-is-in-flight", Seq: c06InFlight},
 		{Name: "histories/MessageBufferLength=4096", Seq: c06BigBuffer}}
 	names, wires := c06Firsts()
 	for i, n := range names {
@@ -751,5 +753,125 @@ func c06EditLater(r *SeqResult) {
 	}
 	if r.Sample == "" {
 		r.Sample = "retain a message, read another one (the same image / one with member-less groups), edit the second in every ordinary way"
+	}
+}
+
+// c06InFlight: the message that will be retained is read on one connection WHILE another
+// connection is in the middle of reading a large message (its header has arrived, its body is
+// still trickling in): the second read runs at the one point where the first is suspended inside
+// its source. The large read then completes, further messages are read on either connection, and
+// the retained message must still be what it was.
+type c06Suspend struct {
+	data  []byte
+	pos   int
+	at    int // offset at which the source suspends the read once
+	fired bool
+	f     func()
+}
+
+func (r *c06Suspend) Read(p []byte) (int, error) {
+	if r.pos >= len(r.data) {
+		return 0, io.EOF
+	}
+	if !r.fired && r.pos >= r.at {
+		r.fired = true
+		r.f()
+	}
+	end := len(r.data)
+	if !r.fired && r.at < end {
+		end = r.at
+	}
+	if end-r.pos > len(p) {
+		end = r.pos + len(p)
+	}
+	n := copy(p, r.data[r.pos:end])
+	r.pos += n
+	return n, nil
+}
+
+func c06InFlight(r *SeqResult) {
+	names, wires := c06Firsts()
+	for i, name := range names {
+		for _, bigBody := range []int{1100, 4096, 70000} {
+			for _, at := range []int{20, 20 + 8, 20 + 600} {
+				for _, follow := range [][]int{{0}, {1}, {0, 0}, {2, 0}} {
+					w := wires[i]
+					var viol string
+					s := vs.Run(nil, false, 0, false, func() {
+						big := c06Follow(0, 2, 7)
+						if bigBody != 1500 {
+							p := make([]byte, bigBody-8)
+							big = refcodec.EncodeMessage(refcodec.Header{Version: 1, Flags: 0x80, Code: 777, App: 0, HbH: 9, E2E: 9}, []refcodec.Node{{Code: c06Alpha.Undef[0], Payload: p}})
+						}
+						var m1 *diam.Message
+						var snap c06Snap
+						var streamB []byte
+						streamB = append(streamB, w...)
+						for j, k := range follow {
+							streamB = append(streamB, c06Follow(len(w), k, j)...)
+						}
+						rdB := bytes.NewReader(streamB)
+						src := &c06Suspend{data: big, at: at}
+						src.f = func() {
+							var err error
+							if m1, err = diam.ReadMessage(rdB, c06Dict.P); err != nil {
+								viol = "first message unreadable: " + err.Error()
+								return
+							}
+							var e string
+							if snap, e = c06Take(m1); e != "" {
+								viol = e
+							}
+						}
+						if _, err := diam.ReadMessage(src, c06Dict.P); err != nil && viol == "" {
+							viol = "the large message cannot be read: " + err.Error()
+						}
+						if viol != "" || m1 == nil {
+							return
+						}
+						// the later reads happen both ways: plainly, and again while another large message is in
+						// flight (so that they draw a different buffer from the pool than the large read holds)
+						readFollow := func(j int) {
+							if _, err := diam.ReadMessage(rdB, c06Dict.P); err != nil {
+								viol = fmt.Sprintf("follow-up read %d failed: %v", j, err)
+								return
+							}
+							now, e := c06Take(m1)
+							if e != "" {
+								viol = e
+								return
+							}
+							if !bytes.Equal(now.wire, snap.wire) || now.str != snap.str {
+								viol = fmt.Sprintf("the message was read while a %d-byte message was in flight on another connection (suspended %d bytes in); it changed after later read %d: String() before %q, after %q", 20+bigBody, at, j+1, clip(snap.str), clip(now.str))
+							}
+						}
+						for j := range follow {
+							if j%2 == 0 {
+								src2 := &c06Suspend{data: big, at: at}
+								src2.f = func() { readFollow(j) }
+								if _, err := diam.ReadMessage(src2, c06Dict.P); err != nil && viol == "" {
+									viol = "the second large message cannot be read: " + err.Error()
+								}
+							} else {
+								readFollow(j)
+							}
+							if viol != "" {
+								return
+							}
+						}
+					})
+					s.Teardown()
+					r.Cases++
+					r.Distinct++
+					if viol != "" && r.Violation == "" {
+						r.Violation = fmt.Sprintf("retained message %q: %s", name, viol)
+						r.Case = map[string]interface{}{"first": name, "big": bigBody, "at": at, "follow": follow}
+					}
+				}
+			}
+		}
+	}
+	if r.Sample == "" {
+		r.Sample = "retain a message read while a large message is in flight on another connection"
 	}
 }
